@@ -3054,7 +3054,9 @@ class Taylor(Output):
                 crmseLabel = "CRMSE"
                 minCrmseLabel = "Min CRMSE"
 
-            maxstd = max(maxstd, max(std))
+            # A slice with constant observations has no finite normalized standard deviation
+            if np.sum(np.isfinite(std)) > 0:
+                maxstd = max(maxstd, np.max(std[np.isfinite(std)]))
             ang = np.arccos(corr)
             x = std * np.cos(ang)
             y = std * np.sin(ang)
